@@ -341,6 +341,13 @@ pub fn failed_call_history(rng: &mut crate::rng::Rng) {
 /// stray bit set below the resolution marker (None for resolutions without room below the marker). C14 lets the library either
 /// reject such a word or treat it as the cell it aliases; whichever it does, it must do it consistently.
 pub fn stray_alias(rng: &mut crate::rng::Rng, c: MCell) -> Option<u64> {
+    if c.res == 1 {
+        // a quintant id has one stray position ABOVE its marker (bit 56) that the scan ignores: bit 57, the marker position of
+        // resolution 0, which the lowest-set-marker rule never reaches; below the marker every position is a finer marker or a
+        // plain stray bit like for the finer cells
+        let w = encode(c) | (1u64 << 57);
+        return if alias_cell(w) == Some(c) { Some(w) } else { None };
+    }
     if c.res < 2 {
         return None;
     }
